@@ -217,11 +217,13 @@ func Encode(w io.Writer, e *Entry) error {
 	minutes := (offset % 3600) / 60
 
 	msg := normalizeMessage(e.Message)
+	name := sanitizeIdent(e.Committer.Name)
+	email := sanitizeIdent(e.Committer.Email)
 
 	if msg != "" {
 		_, err := fmt.Fprintf(w, "%s %s %s <%s> %d %c%02d%02d\t%s\n",
 			e.OldHash, e.NewHash,
-			e.Committer.Name, e.Committer.Email,
+			name, email,
 			e.Committer.When.Unix(), sign, hours, minutes,
 			msg,
 		)
@@ -230,8 +232,23 @@ func Encode(w io.Writer, e *Entry) error {
 
 	_, err := fmt.Fprintf(w, "%s %s %s <%s> %d %c%02d%02d\n",
 		e.OldHash, e.NewHash,
-		e.Committer.Name, e.Committer.Email,
+		name, email,
 		e.Committer.When.Unix(), sign, hours, minutes,
 	)
 	return err
+}
+
+// sanitizeIdent drops the bytes that cannot be part of a name or an email in
+// a reflog line; git removes the same bytes when it formats an identity.
+func sanitizeIdent(s string) string {
+	if !strings.ContainsAny(s, "<>\n") {
+		return s
+	}
+	b := make([]byte, 0, len(s))
+	for i := 0; i < len(s); i++ {
+		if c := s[i]; c != '<' && c != '>' && c != '\n' {
+			b = append(b, c)
+		}
+	}
+	return string(b)
 }
